@@ -304,8 +304,20 @@ func RenderFile(r *run.Rand, f *File, lay Layout) {
 	if r.Bool() {
 		w.nl()
 	}
-	t := f.Type
-	if r.Chance(lay.Comments, 10) {
+	for _, t := range f.Types() {
+		w.typeDecl(t)
+	}
+	if r.Chance(1, 4) {
+		w.comment(false)
+		w.nl()
+	}
+	f.Text = w.sb.String()
+}
+
+// typeDecl renders one top-level type at the current position.
+func (w *writer) typeDecl(t *TypeDecl) {
+	w.fresh()
+	if w.r.Chance(w.lay.Comments, 10) {
 		w.comment(false)
 		w.fresh()
 	}
@@ -331,18 +343,18 @@ func RenderFile(r *run.Rand, f *File, lay Layout) {
 	w.openBrace()
 	w.depth++
 	longAt := -1
-	if lay.LongComment && len(t.Members) > 0 {
-		longAt = r.Intn(len(t.Members))
+	if w.lay.LongComment && len(t.Members) > 0 {
+		longAt = w.r.Intn(len(t.Members))
 	}
 	for i, m := range t.Members {
 		if i == longAt {
 			w.longComment()
 		}
 		if i == 0 {
-			w.sep(lay.MemberJoin)
+			w.sep(w.lay.MemberJoin)
 		} else {
 			w.maybeBetween()
-			w.sep(lay.MemberJoin)
+			w.sep(w.lay.MemberJoin)
 		}
 		switch x := m.(type) {
 		case *Field:
@@ -353,14 +365,9 @@ func RenderFile(r *run.Rand, f *File, lay Layout) {
 		}
 	}
 	w.depth--
-	w.sep(lay.MemberJoin)
+	w.sep(w.lay.MemberJoin)
 	w.s("}")
 	w.nl()
-	if r.Chance(1, 4) {
-		w.comment(false)
-		w.nl()
-	}
-	f.Text = w.sb.String()
 }
 
 func (w *writer) field(f *Field) {
@@ -617,6 +624,7 @@ func (w *writer) expr(e *Expr) {
 		w.plant(e.Site)
 		w.s(e.Site.Name)
 		w.args(e.Args)
+		w.s(e.AnonBody)
 	case "lambda":
 		if e.LambdaParamType != "" {
 			w.s("(" + e.LambdaParamType + " " + e.LambdaParam + ") -> ")
